@@ -602,6 +602,21 @@ class FindOmegaWedge(_OmegaSolver):
         g = self.g_actual(gdir, scale, twoth)
         return [g, twoth, wedge]
 
+    def special_samples(self, rng):
+        """scattering vectors just inside / just outside the blind cone (|cos eta| = 1 +- delta)"""
+        vals = [pt.sample(rng) for _, pt in self.signature]
+        twoth, wedge = vals[2], vals[3]
+        ct, s2 = math.cos(twoth), math.sin(twoth)
+        length = 2 * math.sin(twoth / 2)
+        coseta = rng.choice([-1, 1]) * (1 + rng.choice([-1, 1]) * rng.choice([3e-6, 1e-5, 5e-5, 9e-5, 3e-4, 1e-3]))
+        gz = (coseta * math.cos(wedge) * s2 - math.sin(wedge) * (ct - 1)) / length
+        if abs(gz) >= 1:
+            return None
+        phi = rng.uniform(0, 2 * math.pi)
+        r = math.sqrt(1 - gz * gz)
+        vals[0] = [r * math.cos(phi), r * math.sin(phi), gz]
+        return vals
+
 
     def ensures(self, gdir, scale, twoth, wedge, res):
         om, eta = vlist(res[0]), vlist(res[1])
@@ -630,6 +645,11 @@ class UToRod(Contract):
         yield 'is_rotation', is_rotation(U)
         # rotation angle not within ~1e-6 of 180 degrees: 1 + trace = 2 + 2 cos(angle) >= 1e-12
         yield 'not_half_turn', 1 + Ue[0][0] + Ue[1][1] + Ue[2][2] >= T.Fraction(1, 10 ** 12)
+
+    def numeric_ok(self, U):
+        # the Rodrigues vector is ill-conditioned near half turns (relative error 1e-16 / (1 + tr U)): numeric
+        # comparisons in doubles stay away from them, the symbolic contract does not
+        return 1 + U[0][0] + U[1][1] + U[2][2] >= 1e-6
 
     def result_spec(self, U):
         Ue = entries(U)
@@ -861,6 +881,9 @@ class UbiToRodRoundtrip(Contract):
         yield 'valid_cell', valid_cell(c0)
         Ue = entries(U0)
         yield 'not_half_turn', 1 + Ue[0][0] + Ue[1][1] + Ue[2][2] >= T.Fraction(1, 10 ** 12)
+
+    def numeric_ok(self, U0, c0):
+        return 1 + U0[0][0] + U0[1][1] + U0[2][2] >= 1e-6          # conditioning of the Rodrigues vector, see u_to_rod
 
     def extra_ns(self, U0, c0):
         from pyvc.engine import REGISTRY
